@@ -192,6 +192,16 @@ def corpus_fp(m, tick=None):
     row = hr_extra.get_at_distance(U.Meter(400))
     clicks = weapon.sight.get_trajectory_adjustment(row, 12.0)
     add((float(clicks.vertical).hex(), float(clicks.horizontal).hex()))
+    # after the caller has asked the sight for clicks for EVERY row (a call that hands each row's quantities to the library): rows
+    # looked up just past a recorded distance (a few hundredths of a unit: below one display digit of yards or metres, above one of
+    # feet) - the first row at or beyond the query by magnitude
+    for r_ in hr_extra.trajectory:
+        if r_.distance.raw_value > 0:        # (a second-focal-plane sight has no click size at the muzzle)
+            weapon.sight.get_trajectory_adjustment(r_, 12.0); tick()
+    add(scen.row_fp(hr_extra.get_at_distance(U.Meter(250.03))))
+    add(scen.row_fp(hr_extra.get_at_distance(U.Yard(218.76))))
+    d2 = hr_extra.danger_space(U.Meter(350.04), U.Centimeter(40), U.Degree(3))
+    add([scen.row_fp(d2.begin), scen.row_fp(d2.end), scen.row_fp(d2.at_range)])
     add(q_fp(ammo.get_velocity_for_temp(U.Fahrenheit(10))))
     pts = []
     for bc, v in ((0.275, U.MPS(800)), (0.255, U.FPS(1700)), (0.265, U.KMH(2300))):
